@@ -51,8 +51,17 @@ def judgeGroup (lb : List (Key × Nat)) (members : Key) (keys : List Key) (res :
   let noWrap := K.all fun κ => decide (lbGet lb κ + N < 2 ^ 64)
   let applicable := nodup && noWrap && decide (2 ≤ k)
   let counts := members.map fun e => (e, countPicked e.1 e.2 res)
+  -- per cursor: the picks that used one ordered ready list are strict round-robin among themselves (`c14_strict` on that
+  -- key's picks; picks on other keys do not touch its cursor, `c14_cursor_law`)
+  let perKeyBad := K.findSome? fun κ =>
+    let mineRes := ((keys.zip res).filter fun p => p.1 == κ).map (·.2)
+    let Nκ := mineRes.length
+    if !decide (lbGet lb κ + Nκ < 2 ^ 64) then none else
+    (members.map fun e => (e, countPicked e.1 e.2 mineRes)).find? fun p => !(strictOK k Nκ p.2)
   let bad := if !applicable then none else
-    counts.find? fun p => !(boundedOK k K.length N p.2) || (K.length == 1 && !(strictOK k N p.2))
+    match counts.find? fun p => !(boundedOK k K.length N p.2) || (K.length == 1 && !(strictOK k N p.2)) with
+    | some b => some b
+    | none => perKeyBad
   let strays := res.any fun x => match x with
     | .picked n g => !members.contains (n, g)
     | _ => decide (1 ≤ k)
